@@ -27,6 +27,15 @@ def proof_stage(res, pid, gens=()):
     if bad:
         return False, "forbidden constructs in the Coq development: " + "; ".join(bad[:5])
     ok, err = coq.check_property_file(pid, res)
+    if ok and res.tier == "thorough" and not os.environ.get("VERIF_NO_COQCHK"):
+        # independent re-check of the compiled property file and everything it depends on
+        rc, o, e = sh(["coqchk", "-silent", "-o", "-Q", ".", "SquidV", "SquidV.Properties_%s" % pid],
+                      cwd=COQ, timeout=int(os.environ.get("VERIF_COQCHK_TIMEOUT", "3600")))
+        res.checker_cmds.append("cd coq && coqchk -silent -o -Q . SquidV SquidV.Properties_%s" % pid)
+        res.extra["coqchk_rc"] = rc
+        res.extra["coqchk_output"] = (o + e)[-3000:]
+        if rc != 0:
+            return False, "coqchk rejected the compiled development: " + (o + e)[-800:]
     return ok, err
 
 
